@@ -527,7 +527,7 @@ func E8Units(c *core.Ctx, r *core.Report) {
 	// decoder facts: A.d[i+3] in arc-only contexts
 	for _, fd := range core.AllFuncDecls(root) {
 		decoderSites(root, fd, func() {}, func(s decoderSite) {
-			if s.k == 3 && len(s.set) == 1 && s.set[0] == "ArcToCmd" {
+			if !s.unknown && s.k == 3 && len(s.set) == 1 && s.set[0] == "ArcToCmd" {
 				e.arcSites[s.ie.Lbrack] = true
 			}
 		})
